@@ -607,3 +607,41 @@ func BigSmooth(t *rapid.T, n int, q int64) (ring []P, w int64) {
 	}
 	return ring, w
 }
+
+// Sieve: two rectangular lobes joined by a corridor of generated width (below a pixel it closes and the shell splits in
+// two), each lobe perforated by a regular grid of square holes (side and gap >= 1.5 pixels, so they survive): hundreds to
+// more than a thousand holes.
+func Sieve(t *rapid.T, q int64, maxHoles int) [][]P {
+	cell := 3*q + rapid.Int64Range(0, q).Draw(t, "cell") // pitch of the hole grid
+	side := cell / 2
+	nx := rapid.Int64Range(4, 40).Draw(t, "nx")
+	ny := rapid.Int64Range(4, 40).Draw(t, "ny")
+	for 2*nx*ny > int64(maxHoles) {
+		if nx > ny {
+			nx--
+		} else {
+			ny--
+		}
+	}
+	lw, lh := nx*cell+cell/2, ny*cell+cell/2
+	cor := rapid.Int64Range(1, q+q/2).Draw(t, "corridor")
+	clen := rapid.Int64Range(q, 4*q).Draw(t, "corridorLen")
+	cy := rapid.Int64Range(1, lh-cor-1).Draw(t, "corridorY")
+	x2 := lw + clen
+	shell := []P{{0, 0}, {lw, 0}, {lw, cy}, {x2, cy}, {x2, 0}, {x2 + lw, 0}, {x2 + lw, lh}, {x2, lh}, {x2, cy + cor}, {lw, cy + cor}, {lw, lh}, {0, lh}}
+	rings := [][]P{shell}
+	for _, ox := range []int64{0, x2} {
+		for i := int64(0); i < nx; i++ {
+			for j := int64(0); j < ny; j++ {
+				x, y := ox+cell/4+i*cell+cell/4, cell/4+j*cell+cell/4
+				rings = append(rings, []P{{x, y}, {x + side, y}, {x + side, y + side}, {x, y + side}})
+			}
+		}
+	}
+	// the order of the holes is arbitrary
+	for i := len(rings) - 1; i > 1; i-- {
+		j := rapid.IntRange(1, i).Draw(t, "shuffle")
+		rings[i], rings[j] = rings[j], rings[i]
+	}
+	return rings
+}
